@@ -2,6 +2,7 @@ package rangeproof
 
 import (
 	"fmt"
+	"math"
 	"strconv"
 
 	"github.com/privacybydesign/gabi/big"
@@ -213,6 +214,9 @@ func NewProofStructure(index, sign int, factor uint, bound *big.Int, splitter Sq
 func newWithParams(index, sign int, a uint, k *big.Int, split SquareSplitter, nSplit int, ld uint) (*ProofStructure, error) {
 	if nSplit > 4 {
 		return nil, errors.New("no support for range proofs with delta split in more than 4 squares")
+	}
+	if a > math.MaxInt64 {
+		return nil, errors.New("factor too large")
 	}
 	if sign != 1 && sign != -1 {
 		return nil, ErrUnsupportedSign
@@ -443,6 +447,9 @@ func (p *Proof) ProvesStatement(sign int, factor uint, bound *big.Int) bool {
 		return false
 	}
 	if len(p.Cs) == 3 {
+		if factor > math.MaxUint/4 {
+			return false
+		}
 		factor *= 4
 		bound = new(big.Int).Mul(bound, big.NewInt(4))
 		bound.Sub(bound, big.NewInt(2))
